@@ -448,3 +448,19 @@ M('c09-etag-loads-stale-nonempty-guard', 'C09', 'R16', 'falcon/util/structures.p
         #   although it has been non-standard to do so since at least 1999
         #   with the advent of RFC 2616.
         if value[0] == value[-1] == '"':""")
+# variant: a variable index whose loop guard no longer keeps it below the length (`Forwarded: for=a` ends exactly at `end`)
+M('c09-forwarded-loop-guard-off-by-one', 'C09', 'R16', 'falcon/forwarded.py', "    while 0 <= pos < end:\n", "    while pos <= end:\n")
+# variant: the blank check is made BEFORE stripping, the first character is indexed after (`If-Match:` of blanks only)
+M('c09-parse-etags-strip-after-blank-check', 'C09', 'R16', 'falcon/request_helpers.py', """    etag_str = etag_str.strip()
+    if not etag_str:
+        return None
+
+    if etag_str == '*':
+        return ['*']
+""", """    if not etag_str:
+        return None
+    etag_str = etag_str.strip()
+
+    if etag_str[0] == '*' and len(etag_str) == 1:
+        return ['*']
+""")
